@@ -65,6 +65,18 @@ T = {
  "C03c": ("C03", "ltf_plan loops while fi <= fmax", "f[-1]+r[-1] landing exactly on fs/2 (dyadic N, small Jdes)", [], ""),
  "C10c": ("C10", "Hxy_deg_error = rad2deg(Hxy_mag_error)", "coherence below 1 and a reader of the degree error", [], ""),
  "C19c": ("C19", "polynomial_detrend evaluates the trend with an int64 Vandermonde matrix (overflow)", "order 5 with >= 6210 samples, order 4 with >= 55110", [], "scale-dependent: needed records of 7000 and 60000 samples"),
+ "C01e": ("C01", "_stats_poly_csd_cuda computes the block count for 256 threads but launches 128 per block", "cuda, cross, order 1/2, more than 128 segments", [], "caught by the K=300 CUDA wrapper case (part D)"),
+ "C07c": ("C07", "CUDA cross wrappers reuse the first device array when np.shares_memory(x1, x2)", "kernel-level call with two distinct overlapping views of one buffer (delayed copy)", [], "needed channels that are overlapping views of one buffer (C01 part V)"),
+ "C08c": ("C08", "compute_single_bin dispatch table: (no detrend, cross, NumPy) cell points to the mean-removal kernel", "compute_single_bin, two channels, order -1, backend numpy", [], "needed the single-bin sub-lattice of C05 to cover cross mode (diagonal instead of every-8th)"),
+ "C05e": ("C05", "with force_target_nf and a band the Jdes search counts only in-band bins", "force_target_nf=True together with band", [], "needed the force+band cases in C05"),
+ "C04e": ("C04", "Jdes search rewritten as lower-bound bisection accepting any plan with at least the target count", "a target below the bin count of the smallest admissible Jdes", [], "needed small forced targets (5..95)"),
+ "C14d": ("C14", "compute_single_bin reuses the cached plan's starts for a matching L", "ltf/lpsd, L of the plan with a half-sample tie in the starts, single-bin before and after compute()", [], "needed single-bin ops on bins with half-sample ties in C14-H"),
+ "C15c": ("C15", "absolute machine-epsilon diagonal loading of the input spectral matrix in the numeric solver", "input PSD around 1e-13 or below", [], "needed re-mixing by 1e-9*I"),
+ "C19d": ("C19", "get_rms as a difference of a cached cumulative integral (catastrophic cancellation)", "steep red spectrum, band above most of the power", [], "needed doubly/triply integrated records in the get_rms part"),
+ "C20f": ("C20", "get_measurement casts the interpolant to the tabulated dtype", "integer per-bin fields (L, K, navg) queried between grid points", [], ""),
+ "C16e": ("C16", "lagrange_taps takes the 1-(d/j)^2 factors from a table that stops at j=50", "order >= 103 with a fractional shift", [], ""),
+ "C17e": ("C17", "coloured generators derive their white-noise seed with hash() of a tuple containing a str (salted per process)", "two instances in different interpreter processes", [], "needed the cross-process part of C17"),
+ "C19e": ("C19", "df_detrend collects results in a helper frame built without the original index", "a DataFrame whose index is not 0..n-1", [], "needed frames with float / datetime / shuffled / sliced indexes"),
  "C20b": ("C20", "class-level default _cache plus __getstate__ dropping _cache: clones share one cache", "clones of two different results in one process", [], ""),
 }
 
